@@ -38,7 +38,7 @@ ASSUMPTIONS = [
     "registry membership may change only as specified for detach / replace (C03's subject) and is not part of the frame",
 ]
 TYPECHECK_OK = True  # every generated value conforms to its annotation: some shards run with RUNTIME_TYPE_CHECK on
-MUST_SEE = ["dump_of_younger_twin_loaded", "equal_node_of_redefined_class_constructed", "one_byte_ids", "replace_with_child_field_changes", "membership_checked_around_detach_or_replace", "init_false_child_fields", "registry_membership_checked", "tagless_payload_read_while_alive", "origin_algebra_on_node_origins", "comparisons_with_equal_but_distinct_origin_objects", "compiled_xpath_reused", "mutable_container_in_property", "list_valued_tuple_fields", "hash_churn_rounds", "copy_protocol_ops", "digest_size_switches", "ops", "frames_checked", "raising_ops", "watched_writes_on_new_nodes", "setattr_rejected", "delattr_rejected", "repo_tests_contract_evaluations", "deserialize_registry_hits", "failing_replace_on_suffix_twin", "transform_returns_existing_node", "transform_rebuilds_equal_node"]
+MUST_SEE = ["replace_refused_by_user_post_init", "dump_of_younger_twin_loaded", "equal_node_of_redefined_class_constructed", "one_byte_ids", "replace_with_child_field_changes", "membership_checked_around_detach_or_replace", "init_false_child_fields", "registry_membership_checked", "tagless_payload_read_while_alive", "origin_algebra_on_node_origins", "comparisons_with_equal_but_distinct_origin_objects", "compiled_xpath_reused", "mutable_container_in_property", "list_valued_tuple_fields", "hash_churn_rounds", "copy_protocol_ops", "digest_size_switches", "ops", "frames_checked", "raising_ops", "watched_writes_on_new_nodes", "setattr_rejected", "delattr_rejected", "repo_tests_contract_evaluations", "deserialize_registry_hits", "failing_replace_on_suffix_twin", "transform_returns_existing_node", "transform_rebuilds_equal_node"]
 CONFIG = {
     "quick": {"shards": 16, "histories": 30, "ops": 35, "watchdog_s": 600},
     "thorough": {"shards": 32, "histories": 200, "ops": 60, "watchdog_s": 3400},
@@ -656,6 +656,36 @@ def histories(ctx, U, state, take_frame, diff_frame):
             for f_ in fresh:
                 f_.detach()
 
+        def op_replace_fails_in_user_post_init():
+            # the user's class validates in its own __post_init__ after the base class's (the new node is registered by then)
+            # and refuses: the receiver is back in the registry, also once the refused node is gone
+            name = f"{P}Validated"
+            if name not in U.module.__dict__:
+                src = (
+                    f"@dataclass(frozen=True)\nclass {name}({P}Expr):\n    v: int = 0\n    note: str = field(default='', compare=False)\n    kid: {P}Expr | None = None\n\n"
+                    f"    def __post_init__(self):\n        super().__post_init__()\n        if self.note == 'bad' or self.v < 0:\n            raise ValueError('refused by the model')\n"
+                )
+                exec(compile(src, "<c10 validated>", "exec", dont_inherit=True), U.module.__dict__)
+                from vlib.universe import CS, FS
+
+                U.specs[name] = CS(name, (f"{P}Expr",), [FS("v", "prop", "int", "int", default="0"), FS("note", "prop", "str", "str", compare=False, default="''"), FS("kid", "child", f"{P}Expr | None", "opt", (f"{P}Expr",), default="None")])
+                U.cls[name] = U.module.__dict__[name]
+            C_ = U.module.__dict__[name]
+            n = C_(v=rng.randrange(1000), note="ok", kid=U.cls[f"{P}Leaf"](v=rng.randrange(1000)))
+            handles.append(n)
+            ctx.count("replace_refused_by_user_post_init")
+            for ch in ({"note": "bad"}, {"v": -1}, {"note": "bad", "origin": O.build_origin(("gen", 1))}):
+                try:
+                    n.replace(**ch)
+                except ValueError:
+                    pass
+                import gc as _gc
+
+                _gc.collect()
+                if ASTNode.get_any(n.id) is not n:
+                    ctx.violation("frame", "a replace() refused by the model's own __post_init__ (after the base class's) left the receiver out of the registry", {"changes": sorted(ch)})
+                    break
+
         redef = {}
 
         def op_construct_redefined_class():
@@ -691,7 +721,7 @@ def histories(ctx, U, state, take_frame, diff_frame):
             finally:
                 config.ID_DIGEST_SIZE = was
 
-        ops = [op_load_dump_of_younger_twin, op_construct_redefined_class, op_tiny_digest, op_config, op_copy, op_list_valued, op_origin_algebra, op_compare_twins_with_distinct_origin_objects, op_traverse, op_tree, op_xpath, op_pattern, op_visit, op_duplicate, op_replace_ok, op_replace_fail, op_detach, op_twins, op_serialize, op_serialize, op_compare, op_rich]
+        ops = [op_replace_fails_in_user_post_init, op_load_dump_of_younger_twin, op_construct_redefined_class, op_tiny_digest, op_config, op_copy, op_list_valued, op_origin_algebra, op_compare_twins_with_distinct_origin_objects, op_traverse, op_tree, op_xpath, op_pattern, op_visit, op_duplicate, op_replace_ok, op_replace_fail, op_detach, op_twins, op_serialize, op_serialize, op_compare, op_rich]
         snap_extra = {}
         if case % 2 == 0:
             from vlib.universe import remodelled_class
@@ -706,7 +736,7 @@ def histories(ctx, U, state, take_frame, diff_frame):
             state["pre"] = set(snap)
             # registry membership of every pre-existing node: only detach / replace (and the harness' own detaching) may change it
             # (the ops narrow this themselves: exempt = the nodes whose membership the operation is specified to change)
-            state["membership_may_change"] = op.__name__ in ("op_detach", "op_replace_ok", "op_replace_fail", "op_twins", "op_load_dump_of_younger_twin")
+            state["membership_may_change"] = op.__name__ in ("op_detach", "op_replace_ok", "op_replace_fail", "op_twins", "op_load_dump_of_younger_twin", "op_replace_fails_in_user_post_init")
             state["exempt"] = set()
             member = {k: (ASTNode.get_any(v[0].id) is v[0]) for k, v in snap.items()}
             del state["hits"][:]
